@@ -1,3 +1,4 @@
+from ast import Attribute, Load, Name, expr
 from typing import TypeAlias
 
 import oneliner.utils as utils
@@ -25,7 +26,22 @@ OL_WHILE_TMP: _ol_reserved_name = "__ol_while_{}"
 OL_ITERTOOLS: _ol_reserved_name = "__ol_itertools"  # don't need format here
 OL_IMPORTLIB: _ol_reserved_name = "__ol_importlib"  # don't need format here
 OL_OPERATOR: _ol_reserved_name = "__ol_operator"  # don't need format here
+OL_BUILTINS: _ol_reserved_name = "__ol_builtins"  # don't need format here
 
 
 def ol_name(name: _ol_reserved_name):
     return name.format(utils.unique_id())
+
+
+def ol_builtin(name: str) -> expr:
+    """
+    A builtin that the generated code itself calls.
+    The script may have bound that spelling to something else (`list = 3`),
+    so it is reached through the builtins module, not by its plain name.
+    """
+    return Attribute(
+        value=Name(id=OL_BUILTINS, ctx=Load()),
+        attr=name,
+        ctx=Load(),
+    )
+
